@@ -151,6 +151,34 @@ func (w *World) Do(o fsx.Op) (r fsx.Reply, implFail bool, mis *reffs.Mismatch) {
 	case "DELETEALL":
 		mis = w.DeleteAll()
 		return
+	case "CREATEMANY":
+		for i := 0; i < int(o.Cnt); i++ {
+			if _, _, m := w.Do(fsx.Op{K: "CREATE", H: o.H, N: fmt.Sprintf("%s%03d", o.N, i), As: "_"}); m != nil {
+				return r, false, m
+			}
+		}
+		return
+	case "REMOVETHIRD":
+		h, _ := w.resolve(o.H)
+		id, ok := w.Model.ByFH[fmt.Sprintf("%x", h)]
+		if !ok {
+			return
+		}
+		var names []string
+		for n, c := range w.Model.Objs[id].Children {
+			if w.Model.Objs[c].Kind != reffs.DIR {
+				names = append(names, n)
+			}
+		}
+		sort.Strings(names)
+		for i, n := range names {
+			if i%3 == 0 {
+				if _, _, m := w.Do(fsx.Op{K: "REMOVE", H: o.H, N: n}); m != nil {
+					return r, false, m
+				}
+			}
+		}
+		return
 	}
 	h, _ := w.resolve(o.H)
 	h2, _ := w.resolve(o.H2)
